@@ -228,7 +228,7 @@ def fam_c11(ctx):
         # two workers hang together; hang while signals are being handled
         S.append(ex([(["select.pre", 6], [["hang", "oldest", ign], ["hang", "youngest", 1 - ign]])], nw=3))
         S.append(ex([(["select.pre", 6], [["hang", "oldest", ign], ["sig", "TTIN"], ["sig", "TTOU"], ["sig", "HUP", 2, 0]])]))
-    n = 500 if ctx.quick else 5000
+    n = 900 if ctx.quick else 5000
     for i in range(n):
         to = rng.choice([1, 2, 3])
         S.append(rnd(ctx.seed * 100000 + 50000 + i, nw=rng.choice([1, 2, 3]), timeout=to, tail_s=to + 6,
@@ -246,6 +246,8 @@ def fam_c10(ctx):
         for nwn in (1, 2, 3):
             for chg in (0, 1):
                 S.append(ex([(["select.pre", 2], [["sig", "HUP", nwn, chg]])], nw=nw0, unix=bool(chg and nw0 == 2)))
+    # a NEW worker crashes inside the reload's spawn loop (recorded as an observation, see WAIVE_ON_CRASH)
+    S.append(ex([(["select.pre", 2], [["sig", "HUP", 2, 0]]), (["fork.post", 4], [["die", 3, 256]])]))
     # several HUPs, HUP with TTIN/TTOU
     S.append(ex([(["select.pre", 2], [["sig", "HUP", 2, 0], ["sig", "HUP", 3, 0]])]))
     S.append(ex([(["select.pre", 2], [["sig", "HUP", 2, 0]]), (["kill.post", 1], [["sig", "HUP", 1, 0]])]))
@@ -585,11 +587,17 @@ def c10(ctx):
 
 def c04(ctx):
     design = [
-        ("c04_stop", dict(MaxForks=5, MaxFaults=1, MaxHangs=1, MaxSigs=2, Sigs={"TERM", "INT", "HUP"}, HupW={1},
-                          HupChg={0, 1}, Statuses={"err"}, props=["ShutdownCompletes"], inv=SAFETY)),
+        ("c04_stop", dict(MaxForks=5, MaxFaults=1, MaxHangs=1, MaxSigs=1, Sigs={"TERM", "INT", "QUIT"},
+                          Statuses={"err"}, props=["ShutdownCompletes"], inv=SAFETY)),
+        ("c04_sigs2", dict(MaxForks=5, MaxFaults=0, MaxHangs=1, MaxSigs=2, Sigs={"TERM", "INT", "HUP"}, HupW={1},
+                           HupChg={0, 1}, Statuses={"err"}, inv=SAFETY, workers=8)),
         ("c04_g1", dict(MaxForks=4, MaxFaults=0, MaxHangs=2, MaxSigs=2, Sigs={"TERM", "QUIT"}, Graceful=1,
                         props=["ShutdownCompletes"], inv=SAFETY)),
     ]
+    if not ctx.quick:
+        design.append(("c04_big", dict(MaxForks=5, MaxFaults=1, MaxHangs=1, MaxSigs=2, Sigs={"TERM", "INT", "HUP"},
+                                       HupW={1}, HupChg={0, 1}, Statuses={"err"}, props=["ShutdownCompletes"],
+                                       inv=SAFETY, workers=8)))
     common(ctx, "C04", fam_c04, design, [], ["stop"])
 
 
